@@ -70,6 +70,10 @@ CLAIMED = {
             'Request::match_common is turned into a boolean function of its nine comparison atoms from the path conditions of its CFG and compared on all 512 rows with the MPI rule (communicator, source or ANY_SOURCE with sender in group, tag or ANY_TAG with non-negative tag); on matching paths the real source/tag are copied from the sender exactly under the wildcards and truncation is flagged iff not a probe and smaller buffer; match_recv erases the message id and increments the received counter together and only when neither side probes; match_send/match_recv pass (sender, receiver) in the right order; in Request::start every look-ahead iprobe runs under the temporary PROBE flag, which is cleared before the real simcall on every path, and one message id is recorded per send.',
             'End-to-end ordering across the small/large mailboxes and the timing are not decided; MPI constants are taken as the literals the code compares with.',
             'DESIGN.md §3 C28'),
+    'C39': ('compile-time table read from the clang constant evaluator, table/cast agreement per cell, guard dominance in the dispatcher, symmetry of case expressions',
+            'The consteval 30x30 dependency LUT is read from clang and, for each of its 465 upper-triangle cells, the classes that dispatch_depends casts t1/t2 to in the selected case are compared with the classes deserialize_transition builds for those two types; the dispatcher is checked to report equal actors dependent, unwrap ANY transitions and index the table with the smaller type as row (so that only the defined triangle is read, which makes the relation symmetric by construction); every action reachable on the diagonal must be invariant under swapping t1 and t2.',
+            'Does not decide that pairs declared independent really commute (that is a property of the kernel semantics).',
+            'DESIGN.md §3 C39'),
 }
 
 NOT_APPLICABLE = {
